@@ -11,13 +11,14 @@ EXPLANATION = (
     "continue flag implies the returned component is algebraically the unmodified input, so the last column is "
     "the residual and the columns sum to X; R3 checks that the layer loop can only stop on the cap, the sift "
     "threshold or the extraction's flag; R4 checks the chain flag-cleared <= envelope None <= padded extrema None "
-    "<=> fewer than two extrema. Not decided: floating-point rounding of the sum.")
+    "<=> fewer than two extrema. R5: a component handed back by the extraction is never a view of a residual that "
+    "the layer loop updates in place (aliasing would overwrite the stored column). Not decided: floating-point rounding of the sum.")
 RULE_TEXT = ("an obligation is one rule instantiated on one construct (loop, exit class per stop rule, exit site); "
              "distinct = distinct (rule, function, construct) keys; fixtures and notes are not counted")
 PINNED_EXPECT = [('C01.R2', 'emd.sift.get_next_imf', 'stop_method=sd'),
                  ('C01.R2', 'emd.sift.get_next_imf', 'stop_method=rilling'),
                  ('C01.R2', 'emd.sift.get_next_imf', 'stop_method=fixed')]
-FLOORS = {'C01.R1': 1, 'C01.R2': 3, 'C01.R3': 3, 'C01.R4': 5}
+FLOORS = {'C01.R1': 1, 'C01.R2': 3, 'C01.R3': 3, 'C01.R4': 5, 'C01.R5': 1}
 
 
 def is_gni(ca):
@@ -36,3 +37,5 @@ def run(ctx):
     siftcore.rule_cleared_flag(ctx, 'C01.R2', gni)
     siftcore.rule_licensed_exits(ctx, 'C01.R3', sift, is_gni)
     siftcore.rule_none_chain(ctx, 'C01.R4', gni)
+    siftcore.rule_no_clobber(ctx, 'C01.R5', sift, 'emd.sift.get_next_imf',
+                             [{'stop_method': sm, 'energy_thresh': None} for sm in siftcore.STOP_METHODS])
